@@ -374,6 +374,40 @@ def regex_to_re(pattern: str, flags: int = 0) -> Re:
     return _conv(parsed, eff)
 
 
+def regex_groups(pattern: str, flags: int = 0) -> Dict[int, Re]:
+    """The sub-expression of every capturing group (group number -> Re).  The text captured by group n of any successful match
+    belongs to the language of that sub-expression."""
+    try:
+        parsed = _sp.parse(pattern, flags)
+    except (re.error, RecursionError, OverflowError) as e:
+        raise AnalysisError(f'relang: pattern {pattern!r} does not parse: {e}') from e
+    eff = parsed.state.flags
+    for name, bit in _UNSUPPORTED_FLAGS.items():
+        if eff & bit:
+            raise AnalysisError(f'relang: regex flag {name} is not supported (pattern {pattern!r})')
+    out: Dict[int, Re] = {}
+
+    def walk(items) -> None:
+        for op, av in items:
+            if op is _sc.SUBPATTERN:
+                group, _a, _d, sub = av
+                if group is not None:
+                    out[group] = _conv(sub, eff)
+                walk(sub)
+            elif op is _sc.BRANCH:
+                for b in av[1]:
+                    walk(b)
+            elif op in (_sc.MAX_REPEAT, _sc.MIN_REPEAT):
+                walk(av[2])
+            elif op in (_sc.IN, _sc.LITERAL, _sc.NOT_LITERAL, _sc.ANY, _sc.AT):
+                pass
+            else:
+                raise AnalysisError(f'relang: unsupported regex construct {op}')
+
+    walk(parsed)
+    return out
+
+
 # --------------------------------------------------------------------------------------
 # languages (boolean combinations of regular expressions)
 # --------------------------------------------------------------------------------------
@@ -906,6 +940,41 @@ def prefix_free(a: Lang) -> Optional[Tuple[str, str]]:
                     prev2[t] = (q, k)
                     dq2.append(t)
     return None
+
+
+def finite_strings(a: Lang, limit: int = 256) -> List[str]:
+    """All strings of a FINITE language whose accepted strings are made of individually distinguished characters
+    (every alphabet class on an accepting path is a single code point).  AnalysisError when infinite / too large / not literal."""
+    sets: set = set()
+    for r in a.leaves():
+        _re_sets(r, sets)
+    singles = [CharSet([(cp, cp)]) for cs in sets if len(cs) <= 64 for lo, hi in cs.ranges for cp in range(lo, hi + 1)]
+    alpha = alphabet_for([a], singles)
+    d = to_dfa(a, alpha)
+    alive = d._alive()
+    out: List[str] = []
+    if not alive[0]:
+        return out
+    on_path: List[int] = []
+
+    def rec(st: int, word: List[int]) -> None:
+        if st in on_path:
+            raise AnalysisError(f'relang.finite_strings: the language {a.label} is infinite')
+        if d.accept[st]:
+            if len(out) >= limit:
+                raise AnalysisError(f'relang.finite_strings: more than {limit} strings in {a.label}')
+            for k in word:
+                if len(alpha.classes[k]) != 1:
+                    raise AnalysisError(f'relang.finite_strings: {a.label} contains a character class {alpha.classes[k].describe()}, not a literal')
+            out.append(alpha.text(word))
+        on_path.append(st)
+        for k, q in enumerate(d.trans[st]):
+            if alive[q]:
+                rec(q, word + [k])
+        on_path.pop()
+
+    rec(0, [])
+    return sorted(out, key=lambda w: (len(w), w))
 
 
 def longest_prefix_match(d: DFA, text: str, pos: int) -> Optional[int]:
